@@ -60,7 +60,15 @@ def convert_data_attributes(ns_attrs, attrs, namespaces) -> None:
             if '-' not in name:
                 continue
             prefix, name = name.split('-', 1)
-            ns_attrs[namespaces[prefix], name] = attr['value']
+            namespace = namespaces.get(prefix)
+            if namespace not in (TAL, METAL, I18N, META):
+                # an ordinary data attribute (or one of a foreign namespace)
+                continue
+            # replace the entry of the plain attribute, so that the
+            # namespaced attributes stay aligned with ``attrs``
+            for key in [key for key in ns_attrs if key[1] == attr['name']]:
+                del ns_attrs[key]
+            ns_attrs[namespace, name] = attr['value']
             attrs.pop(i - d)
             d += 1
 
